@@ -19,7 +19,7 @@ class ToGFA1:
     for oline in self.captured_edges:
       gfapy.Field._validate_gfa_field(oline.line.overlap, "alignment_gfa1")
       overlaps.append(str(oline.line.overlap))
-    a.append(",".join(overlaps))
+    a.append(",".join(overlaps) if overlaps else "*")
     for tn in self.tagnames:
       a.append(self.field_to_s(tn, tag=True))
     return a
